@@ -35,7 +35,7 @@ class Check:
         self.seed = seed
         self.quick = tier == "quick"
         self.t0 = time.time()
-        self.work = os.path.join(ROOT, ".work", pid)
+        self.work = os.path.join(ROOT, ".work", "%s-%s-%d" % (pid, tier, os.getpid()))
         shutil.rmtree(self.work, ignore_errors=True)
         os.makedirs(self.work)
         self.cov = {"states": 0, "transitions": 0, "traces_validated_against_impl": 0,
@@ -44,6 +44,7 @@ class Check:
         self.assumptions = []
         self.violations = []          # (signature, detail dict)
         self.known_hits = {}          # key -> what
+        self.drifts = {}              # signature -> detail: code left the model outside the property
         self.known, self.fixed = load_known()
         self.known = [k for k in self.known if k["property"] == pid]
         self.overlay_root = None
@@ -92,6 +93,12 @@ class Check:
         self.violations.append((signature, detail))
         return True
 
+    def drift(self, signature, detail):
+        """The code disagrees with the specification on behaviour that the
+        statement of the property does not cover.  Reported (SPEC-DRIFT line,
+        evidence) so that the specification can follow the code; never an alarm."""
+        self.drifts.setdefault(signature, detail)
+
     def model_violation(self, r, what):
         """A TLC run of a design-level configuration found a counterexample."""
         detail = {"kind": "model", "what": what, "violated": r.violated,
@@ -104,6 +111,8 @@ class Check:
         wall = time.time() - self.t0
         for key, what in self.known_hits.items():
             print("KNOWN-FINDING: property=%s %s [%s]" % (self.pid, what, key))
+        for sig in sorted(self.drifts):
+            print("SPEC-DRIFT property=%s (outside the property's statement, not an alarm): %s" % (self.pid, sig))
         paths = []
         for sig, detail in self.violations:
             d = os.path.join(ROOT, "replays", self.pid)
@@ -118,6 +127,7 @@ class Check:
             print("  signature: %s" % sig)
         cov = dict(self.cov)
         cov["known_findings_hit"] = sorted(self.known_hits)
+        cov["spec_drift"] = [{"signature": k, "detail": v} for k, v in sorted(self.drifts.items())][:20]
         if cov["states"] < 1 or cov["transitions"] < 1:
             raise MachineryError("no TLC run contributed states: evidence would be empty")
         if not cov["samples"]:
@@ -125,9 +135,10 @@ class Check:
         ev = {"property_id": self.pid, "tier": self.tier, "seed": self.seed,
               "level": "model_checking", "coverage": cov, "assumptions": self.assumptions,
               "wall_s": round(wall, 2), "violations": len(self.violations)}
-        os.makedirs(os.path.join(ROOT, "evidence"), exist_ok=True)
-        with open(os.path.join(ROOT, "evidence", self.pid + ".json"), "w") as f:
-            json.dump(ev, f, indent=1, default=str)
+        if not getattr(self, "replay", None):     # a replay re-judges one case; the evidence describes a full run
+            os.makedirs(os.path.join(ROOT, "evidence"), exist_ok=True)
+            with open(os.path.join(ROOT, "evidence", self.pid + ".json"), "w") as f:
+                json.dump(ev, f, indent=1, default=str)
         print("%s %s: %s  states=%d transitions=%d impl_traces=%d evaluations=%d distinct=%d wall=%.1fs" % (
             self.pid, self.tier, "VIOLATED" if self.violations else "held",
             cov["states"], cov["transitions"], cov["traces_validated_against_impl"],
@@ -145,6 +156,8 @@ def main(pid, run, argv=None):
     try:
         c = Check(pid, a.tier, seed)
         c.replay = a.replay
+        if a.replay and not os.path.exists(a.replay):
+            raise MachineryError("replay file not found: " + a.replay)
         run(c)
         return c.finish()
     except MachineryError as e:
